@@ -24,14 +24,29 @@ Inductive vobs :=
 | VUnknown.                                                      (* no candidate reproduces the value *)
 Inductive cobs := CoNone | CoConsumed | CoErr | CoPanic | CoValues (l : list vobs).
 
+(* An event whose own Tags() callback rotates the filter part way through: the deterministic stand-in for a rotation scheduled
+   between the head of Process and a value, or between two values, of ONE event.  As a schedule of Crypto.crun:
+     AStart tid cb_ewi ; AVal tid ... (cb_pre) ; ARot cb_rot ; AVal tid ... (cb_post)
+   followed by a plain event (cb_after) on the same filter, which shows that the rotation was applied.  Any initial filter state
+   (salt / info absent, empty or set), any rotation (introducing, emptying or changing salt, info, wrapper), events with and
+   without per-event wrapper info. *)
+Inductive cbobs := CbErr | CbPanic | CbValues (pre post after : list vobs).
+Record cbcase := {
+  cb_init : fstate N;
+  cb_ewi : option ewinfo;
+  cb_pre : list (cop * bstr);                          (* the values produced before the callback runs *)
+  cb_rot : option N * option bstr * option bstr;       (* what the callback rotates: wrapper, salt, info (None = left alone) *)
+  cb_post : list (cop * bstr);                         (* the values of the same event produced after it *)
+  cb_after : list (cop * bstr);                        (* the values of a plain event processed next *)
+  cb_obs : cbobs;
+}.
+
 Record ccase := {
   cc_id : N;
   cc_init : fstate N;
   cc_steps : list (op N * cobs);
   cc_conc : list (N * N * N);    (* under concurrent rotation j -> (wrapper j, salt j, info j): indices attributed to each HMAC value *)
-  cc_cb : list (N * N * N);      (* the same for an event with per-event wrapper info and nil salt / info whose own Tags() callback
-                                    rotates the filter between the head of Process and the values (the schedule of
-                                    CryptoProofs.ewi_fallback_mixes_refuted): (base of the derived wrapper, salt, info) *)
+  cc_cbs : list cbcase;          (* events rotated from their own Tags() callback *)
   cc_caller : bool;              (* the salt / info slices the caller configured the filters of this case with still hold the caller's bytes *)
 }.
 
@@ -119,9 +134,29 @@ Fixpoint run_steps (div : bool) (st : fstate N) (seen : list (hkey * bstr)) (i :
 
 Definition conc_ok (t : N * N * N) : bool := match t with (w, s, i) => N.eqb w s && N.eqb s i end.
 
+(* the (wrapper, salt, info) that encrypt() / hmacSha256() select in filter state st for an event started with options o *)
+Definition triple_of (st : fstate N) (o : evopts N) : option (N * bstr * bstr) :=
+  match sel_wrap N st o with Some w => Some (w, sel_salt N st o, sel_info N st o) | None => None end.
+Definition cb_rotated (c : cbcase) : fstate N := match cb_rot c with (w, s, i) => rotate N (cb_init c) w s i end.
+
+(* the event fixes its options at its start (state cb_init); its values before the callback are produced in state cb_init,
+   those after it in state cb_rotated - under the SAME options; the next event is wholly under cb_rotated *)
+Definition cb_mm (c : cbcase) : list kind :=
+  match cb_obs c, event_opts N m_derive (cb_init c) (cb_ewi c) with
+  | CbPanic, _ => [CKPanic]
+  | CbErr, None => []
+  | CbValues os1 os2 os3, Some eo =>
+      match triple_of (cb_init c) eo, triple_of (cb_rotated c) eo, key_in_force N m_derive (cb_rotated c) None with
+      | Some t0, Some t1, Some t2 =>
+          check_values t0 (cb_pre c) os1 ++ check_values t1 (cb_post c) os2 ++ check_values t2 (cb_after c) os3
+      | _, _, _ => [CKErr]
+      end
+  | _, _ => [CKErr]
+  end.
+
 Definition mismatches (cs : list ccase) : list (N * (N * N * kind)) :=
   flat_map (fun c =>
     map (fun m => (cc_id c, (fst m, 0%N, snd m))) (run_steps false (cc_init c) [] 0%N (cc_steps c))
     ++ (if forallb conc_ok (cc_conc c) then [] else [(cc_id c, (0%N, 1%N, CKAtomic))])
-    ++ (if forallb conc_ok (cc_cb c) then [] else [(cc_id c, (0%N, 2%N, CKAtomic))])
+    ++ flat_map (fun cb => map (fun k => (cc_id c, (0%N, 2%N, k))) (cb_mm cb)) (cc_cbs c)
     ++ (if cc_caller c then [] else [(cc_id c, (0%N, 0%N, CKCallerSlice))])) cs.
